@@ -103,7 +103,8 @@ class SearchPath:
         return [e for e in self.events if e.kind == "EVAL"]
 
     def inits(self):
-        return [e for e in self.events if e.kind == "INIT"]
+        """events that (re)build the live GHE: initialize_ghe(field, h) and calculate_excess(field, h)"""
+        return [e for e in self.events if e.kind in ("INIT", "EVAL")]
 
 
 def run_search(prog: Program, qual: str, loop_bound: int = 1, extra_seed=None) -> tuple:
